@@ -665,6 +665,8 @@ INVALID = {
     'else-else': "if a:\nelse:\nelse:\nendif\n",
     'bad-if-cond': "if a +:\nendif\n",
     'missing-endfunction': "function f():\n  return 1\n",
+    'dangling-continuation': "a = 1\nb = 2 + \\\n",
+    'dangling-continuation-2': "a = fn1( \\\n  1, \\\n",
 }
 
 
@@ -1247,12 +1249,20 @@ def evaluate(cases, results):
         stats['fails_total'] += 1
         stats['fails_per_class'][cls] = stats['fails_per_class'].get(cls, 0) + 1
         stats['fails_per_tag'][c['tag']] = stats['fails_per_tag'].get(c['tag'], 0) + 1
-        if len(fails) < 200:
+        if len(fails) < 20000:
             f = {'class': cls, 'tag': c['tag'], 'rewrite': c['rewrite'], 'name': c.get('name'),
                  'base_source': source_of(bc['payload']), 'source': source_of(c['payload']), 'expected': exp, 'got': got,
                  'payload': c['payload']}
             fails.append(f)
-    # smallest failing inputs first: they are the replays a reader wants to see
+    # smallest failing inputs first (they are the replays a reader wants), every (class, tag) represented, at most 200
+    fails.sort(key=lambda f: len(f['source']))
+    per = {}
+    keep, rest = [], []
+    for f in fails:
+        k = (f['class'], f['tag'])
+        per[k] = per.get(k, 0) + 1
+        (keep if per[k] <= 20 else rest).append(f)
+    fails = (keep + rest)[:200]
     fails.sort(key=lambda f: len(f['source']))
     info = cases[0].get('_build_info') if cases else None
     if info:
